@@ -156,7 +156,7 @@ def _cmp(got, exp):
             a = c["a"] if isinstance(c["a"], dict) else {}
             x = g["cells"].get(json.dumps(a, sort_keys=True))
             n, d = c["v"]
-            if x is None or d == 0 or abs(x - n / d) > 1e-9:
+            if x is None or d == 0 or not (abs(x - n / d) <= 1e-9):
                 return "cpd_value"
     return None
 
@@ -251,7 +251,7 @@ def replay_gen(payload):
                 fail("returns_%s_expected_%s" % (ret, st["ret"]), si, o, exc, st["ret"])
                 break
             if op == "marginal":
-                badv = [c for c in st["val"] if abs(val[c["s"]] - c["v"][0] / c["v"][1]) > 1e-9]
+                badv = [c for c in st["val"] if not (abs(val[c["s"]] - c["v"][0] / c["v"][1]) <= 1e-9)]
                 if badv:
                     fail("query_value", si, o, val, st["val"])
                     break
